@@ -278,7 +278,7 @@ def run_ro(v, seed, iters, timeout=600):
     st = Symtab(v["lib"])
     rc, out = sh([v["ro_exe"], "ro", str(seed), str(iters)], timeout=timeout)
     res = {"stores": [], "diffs": [], "crashes": [], "summary": "", "rc": rc, "raw_tail": out[-1500:], "segments": [],
-           "parts": None, "parts_outside": [], "values": {}, "closure": {}, "closure_bad": [], "probes": []}
+           "parts": None, "parts_outside": [], "values": {}, "closure": {}, "closure_bad": [], "probes": [], "ops": {}}
     seen = set()
     canary_store, canary_diff = set(), set()
     for line in out.split("\n"):
@@ -313,6 +313,9 @@ def run_ro(v, seed, iters, timeout=600):
             res["segments"].append(line[4:])
         elif line.startswith("PARTS "):
             res["parts"] = {k: int(x) for k, x in (kv.split("=") for kv in line.split()[1:])}
+        elif line.startswith("OPS "):
+            f = line.split(" ", 2)
+            res["ops"][f[2]] = res["ops"].get(f[2], 0) + int(f[1])
         elif line.startswith("PROBE "):
             m = re.match(r"PROBE (\S+) type=(.*) op=(\S+) (?:sig=(\d+)|survived rc=(-?\d+))$", line)
             if m:
